@@ -285,13 +285,16 @@ def prove(ctx, modules, theorems):
         # these modules import Generated/Locks.lean: it must describe the tree being checked
         if regen_locks(ctx):
             ctx.notes.append("lock rows regenerated from the source differ from the committed Generated/Locks.lean")
-    if "Helios.Props.Code" in modules:
+    if any(m.startswith("Helios.Props.Code") for m in modules):
         if regen_code(ctx):
             ctx.notes.append("functions translated from the source differ from the committed Generated/Code.lean")
     ok, log = lake_build(list(modules) + ["driver"])
     build_detail = ""
     blamed = {}      # theorem -> reason, for theorems of modules that no longer build
     if not ok:
+        okd, logd = lake_build(["driver"])
+        if not okd:
+            raise BuildError("the model driver does not build: " + logd[-1200:])
         # find out which modules still build; in the others, blame the theorems whose text
         # encloses an error (and the theorems that use those); the rest elaborated fine but
         # cannot be axiom-audited until the module builds again
